@@ -91,6 +91,10 @@ def isWordEnd (s : Bytes) : Bool :=
   | [] => true
   | _ => false
 
+/-- a word (enum keyword, number, flag set `A | B`, reference `!7`): non-empty, up to the next `,` or `)`, without `:` (a dropped comma would otherwise
+    swallow the next field) and without `"` -/
+def wordOK (w : Bytes) : Bool := !w.isEmpty && w.all fun c => c != 44 && c != 41 && c != 58 && c != 34
+
 /-- an integer: an optional `-` and decimal digits -/
 def readInt (s : Bytes) : Option (Int × Bytes) :=
   match s with
@@ -120,7 +124,7 @@ def readVal (vk : VK) (s : Bytes) : Option (FVal × Bytes) :=
      | none => (match TyParse.stripPrefix sFalse s with | some r => some (.bool false, r) | none => none))
   | .word =>
     let w := s.takeWhile fun c => c != 44 && c != 41
-    if w.isEmpty then none else some (.word w, s.dropWhile fun c => c != 44 && c != 41)
+    if wordOK w then some (.word w, s.dropWhile fun c => c != 44 && c != 41) else none
 
 /-- the position of the keyword in the kind's field list -/
 def findField : Nat → List FieldSpec → Bytes → Option (Nat × FieldSpec)
@@ -210,8 +214,6 @@ def translate (T : Table) (n : Node) : Option Node :=
 def parse (T : Table) (s : Bytes) : Option Node := (readNode T s).bind (translate T)
 
 /-! ### well-formedness (decidable; evaluated by the driver on every generated node) -/
-
-def wordOK (w : Bytes) : Bool := !w.isEmpty && w.all fun c => c != 44 && c != 41
 
 def valOK (vk : VK) : FVal → Bool
   | .int _ => vk == .int
